@@ -28,9 +28,11 @@ LegacyNames == {"PrefixAfterUnique", "PrefixOnDot", "NoAnyComparable", "NilDeref
 T(s)  == [c |-> "t",  s |-> s]
 SP    == [c |-> "sp", s |-> " "]
 NL    == [c |-> "nl", s |-> "\n"]
+\* (divide and conquer: TLC interns every intermediate string, a left fold would be quadratic)
 RECURSIVE FlatR(_, _, _)
-FlatR(ps, i, acc) == IF i > Len(ps) THEN acc ELSE FlatR(ps, i + 1, acc \o ps[i].s)
-Flat(ps) == FlatR(ps, 1, "")
+FlatR(ps, lo, hi) == IF lo > hi THEN "" ELSE IF lo = hi THEN ps[lo].s
+                     ELSE LET mid == (lo + hi) \div 2 IN FlatR(ps, lo, mid) \o FlatR(ps, mid + 1, hi)
+Flat(ps) == FlatR(ps, 1, Len(ps))
 
 (* ------------------------- the construct table -------------------------- *)
 \* name |-> open, close, sep (pieces), multi, arity (-1 = variadic)
